@@ -102,3 +102,85 @@ claim(
     'elements the statement reads. Does not decide the perturbation semantics.',
     'DESIGN.md 4 C20',
 )
+claim(
+    'C05',
+    'loop-shape and forwarding tables, effect confinement in the period loop, validation dominance, NumPy-scalar provenance lattice',
+    'Decides: solve() of models and linkers iterates iter_periods(start, end, **kwargs) and calls solve_t exactly once per period with the '
+    'position and all options forwarded unchanged, stores flag/position/label per index, has no try/break/other effect in the loop; '
+    'iter_periods rejects an empty span first, pairs positions and labels over the same bounds, default range span[lags]..span[-1-leads]; '
+    'label validation precedes any solving; package-defined span-search methods return a Python int (what the isinstance(..., int) '
+    'consumers require). Containment follows with C04.R1 (re-evaluated here). Does not decide list/pandas index semantics.',
+    'DESIGN.md 4 C05',
+)
+claim(
+    'C09',
+    'who-may-write of backing arrays, shape provenance x DimensionError guard dominance, effect-free raise paths, strict guard table, MRO-resolved values/size agreement',
+    'Decides: only four audited statements replace a series backing array, each storing an array that is 1-D of len(span) by '
+    'construction or behind ndim/length guards; replacements take the old dtype; no effect on any path to a raise in add_variable/'
+    '__setattr__/add_attribute; the strict guard has exactly the documented exemptions and dominates attribute creation; values and size '
+    'range over the same name list per class (BaseLinker: K7). Does not decide NumPy casting.',
+    'DESIGN.md 4 C09',
+)
+claim(
+    'C10',
+    'decision-table extraction, get/set sibling agreement, handler discipline',
+    'Thin (library indexing semantics dominate). Decides: open slice ends default to the span ends, start/stop located separately, +1 '
+    'exactly when the located stop is not a slice; __getitem__/__setitem__ resolve tuple keys identically and apply the same subscripts '
+    'to the same array; every lookup failure is re-raised as KeyError(period) from e and no path returns a default position; fallback: '
+    '0 matches KeyError, 1 match position, several refused. Does not decide what list.index/get_loc select.',
+    'DESIGN.md 4 C10',
+)
+claim(
+    'C11',
+    'copy-route table, copy completeness, alias/escape analysis of class-level mutables per reaching definition, write detection on module/class objects',
+    'Decides: classes defining copy() bind __copy__/__deepcopy__ to it; copy() deep-copies every __dict__ entry (exclusions passed to the '
+    'constructor deep-copied); every read of a class-level mutable attribute via self/cls is copied before it is stored, registered, '
+    'passed to a constructor or returned (direct uses and local aliases); no mutable defaults; module/class-level mutable objects are '
+    'never written. Does not decide observational equality of copies.',
+    'DESIGN.md 4 C11',
+)
+claim(
+    'C12',
+    'fresh-object provenance, effect detection on self, dtype dispatch table from guards, writer/reader agreement of defaults, position-map direction',
+    'Decides: the result is self.copy() and nothing writes the original; bool/int/str series default to False/0/\'\' (else coerced), others '
+    'NaN via np.full(len(new span)); model defaults for status/iterations equal ModelInterface.__init__\'s initial values and keep caller '
+    'fills; per-variable fill precedence; strict resolution and rejection before the copy; the new->old position map is built and '
+    'consumed without crossing. Does not decide label matching for repeated labels nor pandas Series.reindex.',
+    'DESIGN.md 4 C12',
+)
+claim(
+    'C16',
+    'fresh-vs-parameter provenance of in-place stores, delegation tables, ordered namespace population by dominance, label provenance',
+    'Decides: helpers never store into their input; lag/lead/dlog delegate with the stated arguments; shift refills the right end per '
+    'sign; diff returns x - lag(x, d) (d == 0 shortcut: K6); eval populates helper table -> variables -> caller locals, deep-copies the '
+    'default helper table, never writes the container, maps NameError to AttributeError from e naming the variable; the inclusive +1 in '
+    'expression indexes applies only to backticked-label integer stops. Does not decide numeric values at boundary shifts.',
+    'DESIGN.md 4 C16',
+)
+claim(
+    'C17',
+    'wrapper transparency (single base call on every path, identity forwarding), guard on trace, effect confinement, call order',
+    'Decides: each TracerMixin wrapper calls its base exactly once on every path, outside any try, forwarding t, *args, trace, reset, '
+    '(iteration,) **kwargs unchanged, solve_t returning that value; every trace_t call is under `if trace:`; trace_t/Trace write only the '
+    'trace element at t and Trace attributes from a fresh snapshot; labels start/before/0/pass/end are ordered around the base calls as '
+    'stated. Does not decide snapshot contents.',
+    'DESIGN.md 4 C17',
+)
+claim(
+    'C18',
+    'wrapper resolution tables, no-storage effect summary, funnel audit of bulk operations, export return shapes',
+    'Decides: the four AliasMixin dunders resolve only the name and pass the rest unchanged, returning the base result; constructor '
+    'kwargs re-keyed after the alias map exists; chain shortening to a fixpoint, self-maps dropped; no storage created by the mixin; bulk '
+    'operations reach the backing store only through the overridden dunders or with canonical names; to_dataframe returns the base frame '
+    'or a column rename. Does not decide equality of operation histories.',
+    'DESIGN.md 4 C18',
+)
+claim(
+    'C19',
+    'Optional-field exhaustiveness table, per-variable frame construction, flag forwarding tables',
+    'Thin (pandas coercions dominate). Decides: every Optional field of Symbol is restored to None on import; model_to_dataframe builds '
+    'one column per variable from model[k] over model.names (underscore filter exactly when include_internal is false), indexed by span, '
+    'status/iterations under their flags; linker export one frame per submodel plus the linker with flags forwarded unchanged; '
+    'from_dataframe passes the index as span and column values by name. Does not decide value fidelity inside pandas.',
+    'DESIGN.md 4 C19',
+)
